@@ -534,6 +534,18 @@ impl Regex {
         start: usize,
     ) -> exec::Matches<super::classicalbacktrack::BacktrackExecutor<'r, indexing::Utf16Input<'t>>>
     {
+        // A start between the two halves of a surrogate pair denotes the pair itself (as JS does
+        // for lastIndex): the decoder pairs surrogates in both directions, so starting in the
+        // middle would let backward steps move in front of the start position.
+        let start = if start > 0
+            && start < text.len()
+            && (0xD800..0xDC00).contains(&text[start - 1])
+            && (0xDC00..0xE000).contains(&text[start])
+        {
+            start - 1
+        } else {
+            start
+        };
         let input = Utf16Input::new(text, self.cr.flags.unicode);
         exec::Matches::new(
             super::classicalbacktrack::BacktrackExecutor::new(
